@@ -51,6 +51,41 @@ def _test(node: ast.expr, want: bool) -> list[list[tuple[str, bool]]]:
     return [[(ast.unparse(node), want)]]
 
 
+def match_as_ifs(m: ast.Match):
+    """`match s: case 'a': .. case 'b' | 'c': .. case _: ..` over value patterns only, as the equivalent if / elif chain on
+    `s == 'a'`; None when a case binds names or destructures (left opaque)"""
+    if not isinstance(m.subject, (ast.Name, ast.Attribute)):
+        return None
+    arms = []
+    for case in m.cases:
+        pats = case.pattern.patterns if isinstance(case.pattern, ast.MatchOr) else [case.pattern]
+        tests = []
+        wild = False
+        for p_ in pats:
+            if isinstance(p_, ast.MatchValue) and isinstance(p_.value, (ast.Constant, ast.Attribute)):
+                tests.append(ast.Compare(left=m.subject, ops=[ast.Eq()], comparators=[p_.value]))
+            elif isinstance(p_, ast.MatchSingleton):
+                tests.append(ast.Compare(left=m.subject, ops=[ast.Is()], comparators=[ast.Constant(p_.value)]))
+            elif isinstance(p_, ast.MatchAs) and p_.pattern is None and p_.name is None:
+                wild = True
+            else:
+                return None
+        test = None if wild else (tests[0] if len(tests) == 1 else ast.BoolOp(op=ast.Or(), values=tests))
+        if case.guard is not None:
+            test = case.guard if test is None else ast.BoolOp(op=ast.And(), values=[test, case.guard])
+        arms.append((test, case.body))
+    tail: list[ast.stmt] = []
+    for test, body in reversed(arms):
+        if test is None:
+            tail = list(body)
+        else:
+            node = ast.If(test=test, body=list(body), orelse=tail)
+            ast.copy_location(node, body[0])
+            ast.fix_missing_locations(node)
+            tail = [node]
+    return tail
+
+
 def paths(stmts: list[ast.stmt], limit: int = 4096) -> list[SPath]:
     done: list[SPath] = []
 
@@ -61,6 +96,11 @@ def paths(stmts: list[ast.stmt], limit: int = 4096) -> list[SPath]:
             done.append(p)
             return
         s, rest = todo[0], todo[1:]
+        if isinstance(s, ast.Match):
+            chain = match_as_ifs(s)
+            if chain is not None:
+                go(chain + rest, p)
+                return
         if isinstance(s, ast.If):
             for facts in _test(s.test, True):
                 if _consistent(p.conds, facts):
